@@ -129,6 +129,24 @@ def run(tier, seed):
             if pos:
                 tz = chaingen.signed_tx(keys, bz.utxo, [r_ for r_, _ in pos], [(sum(vo[0] for _, vo in pos), keys.pks[1])])
                 tg.extend(bz, txs=[tz], fees=0, miner=keys.pks[2])
+            # a transaction whose inputs alternate between keys (A, B, A): per-key bookkeeping must not assume that the
+            # inputs of one key stand next to each other
+            tipi = max(tg.nodes, key=lambda x: x.height)
+            for _grow in range(6):
+                sp_ = sorted(tg.spendable(tipi))
+                bykey = {}
+                for r_, vo in sp_:
+                    if vo[0] > 0:
+                        bykey.setdefault(vo[1], []).append((r_, vo))
+                twice = [k_ for k_, lst in bykey.items() if len(lst) >= 2]
+                if twice and len(bykey) >= 2:
+                    ka = twice[0]
+                    kb = [k_ for k_ in bykey if k_ != ka][0]
+                    trio = [bykey[ka][0], bykey[kb][0], bykey[ka][1]]
+                    ti = chaingen.signed_tx(keys, tipi.utxo, [r_ for r_, _ in trio], [(sum(vo[0] for _, vo in trio), keys.pks[3])])
+                    tg.extend(tipi, txs=[ti], fees=0, miner=keys.pks[2])
+                    break
+                tipi = tg.extend(tipi, txs=[], fees=0, miner=keys.pks[_grow % 2])
             nodes = tg.nodes
             if small:
                 orders = all_orders(nodes, 200 if tier == 'quick' else 2000)
@@ -228,6 +246,28 @@ def run(tier, seed):
                                              'exception inside the replay, the next lookup for the same block reports %d keys, '
                                              'the replay of its chain has %d' % (len(got_again), len(want_again)),
                                              dict(rp, block=bytes(target_h).hex(), interrupted_in=fname))
+                            break
+                # building payments is an observation of the chain state: after a wallet with pending spends has built two
+                # payments against this state, the balances it reports are still the replay's
+                if oi == 0:
+                    from skepticoin.wallet import create_spend_transaction as _spend
+                    from skepticoin.signing import SECP256k1PublicKey as _PK
+                    wsp = Wallet({pk: keys.by_pk[pk].to_string() for pk in keys.pks}, [], {pk: 'x' for pk in keys.pks})
+                    hd_ = byid[bytes(cs.current_chain_hash)]
+                    for _k in range(3):
+                        try:
+                            _spend(wsp, cs, 1, 0, _PK(keys.pks[0]), _PK(keys.pks[1]))
+                        except Exception:
+                            break
+                    got_after = impl_balances(cs, cs.current_chain_hash)
+                    want_after = spec.balances(hd_.utxo)
+                    ck.count('balances-rechecked-after-payments-were-built')
+                    for pk, (v, refs) in got_after.items():
+                        wv, wrefs = want_after.get(pk, [0, set()])
+                        if v != wv or sorted(refs) != sorted(wrefs):
+                            ck.violation('balance-not-sum-of-unspent', "after a wallet built payments against a chain state, a key's "
+                                         'balance or reference list at the (unchanged) head differs from the unspent outputs paying '
+                                         'that key', dict(rp, key=pk.hex(), after='create_spend_transaction x3'))
                             break
                 # wallet balance at head
                 w = Wallet({pk: b'' for pk in keys.pks}, list(keys.pks[:3]), {pk: 'x' for pk in keys.pks[3:]})
